@@ -181,7 +181,7 @@ pub mod bus_sim {
         polls: usize,
     }
 
-    fn run_scenario(s: &Scn, join_mid_telegram: bool) -> Outcome {
+    fn run_scenario(s: &Scn, join_mid_telegram: bool, adversary: Option<u64>) -> Outcome {
         let baud = if s.baud_fast { profirust::Baudrate::B500000 } else { profirust::Baudrate::B19200 };
         let bits = |b: u32| baud.bits_to_time(b);
         let bus = profirust::phy::SimulatorPhy::new(baud, "phy#monitor");
@@ -244,10 +244,87 @@ pub mod bus_sim {
         // tolerance: both receipts are observed by the station up to one poll step after the monitor sees them
         let late_margin = bits(s.ttr_bits + 2 * s.dt_bits + 22);
 
+        // adversary (scenario numbers >= 2_000_000): a foreign device that injects telegrams the property text lists
+        // (tokens from/to arbitrary addresses incl. > 125 and a station's own address, status requests / replies, short
+        // confirmations, data replies, garbage) 12..22 bit times after a token telegram, i.e. while nobody else may
+        // transmit, so the injection itself never collides
+        let mut adv_phy = bus.duplicate("phy#adv");
+        let mut adv_rng = Rng(adversary.unwrap_or(1) | 1);
+        let mut adv_left: u32 = if adversary.is_some() { 1 + adv_rng.below(6) as u32 } else { 0 };
+        let mut adv_not_before = Instant::ZERO + bits(8_000 + adv_rng.below(40_000) as u32);
+        let mut adv_token_seen: Option<(Instant, u8)> = None;
+        let mut adv_second: Option<(Instant, Vec<u8>)> = None;
+
         let mut now = Instant::ZERO;
         let mut bus_idle = true;
         while now < end {
             bus.set_bus_time(now);
+            if let Some((at, bytes)) = adv_second.take() {
+                if now >= at {
+                    let n = bytes.len();
+                    adv_phy.transmit_data(now, |buf| {
+                        buf[..n].copy_from_slice(&bytes);
+                        (n, ())
+                    });
+                } else {
+                    adv_second = Some((at, bytes));
+                }
+            } else if let Some((seen, holder)) = adv_token_seen {
+                if adv_left > 0 && now >= adv_not_before && now >= seen + bits(12) && bus_idle {
+                    adv_token_seen = None;
+                    adv_left -= 1;
+                    adv_not_before = now + bits(500 + adv_rng.below(8_000) as u32);
+                    let real = s.addrs[adv_rng.below(s.addrs.len() as u64) as usize];
+                    let any = adv_rng.below(256) as u8;
+                    let mut sa = adv_rng.below(256) as u8;
+                    if sa == holder {
+                        sa = sa.wrapping_add(1);
+                    }
+                    let da = if adv_rng.below(3) == 0 { any } else { real };
+                    let sd1 = |da: u8, sa: u8, fc: u8| vec![0x10, da, sa, fc, da.wrapping_add(sa).wrapping_add(fc), 0x16];
+                    let bytes: Vec<u8> = match adv_rng.below(8) {
+                        0 | 1 | 2 => vec![0xDC, da, sa],
+                        3 => sd1(da, sa & 0x7f, 0x49),
+                        4 => sd1(da, sa & 0x7f, [0x00, 0x20, 0x30, 0x08, 0x02][adv_rng.below(5) as usize]),
+                        5 => vec![0xE5],
+                        6 => match adv_rng.below(3) {
+                            // noise that does not start with a start delimiter / truncated SD2 header / truncated SD1
+                            0 => (0..1 + adv_rng.below(8))
+                                .map(|i| {
+                                    let b = adv_rng.below(256) as u8;
+                                    if i == 0 && [0xDC, 0xE5, 0x10, 0x68, 0xA2].contains(&b) { 0x55 } else { b }
+                                })
+                                .collect(),
+                            1 => vec![0x68, 9, 9, 0x68, da, sa, 0x08],
+                            _ => vec![0x10, da, sa],
+                        },
+                        _ => {
+                            // SD2 data response with SAPs and a short PDU
+                            let pdu: Vec<u8> = (0..adv_rng.below(7)).map(|_| adv_rng.below(256) as u8).collect();
+                            let mut body = vec![da | 0x80, (sa & 0x7f) | 0x80, 0x08, adv_rng.below(64) as u8, adv_rng.below(64) as u8];
+                            body.extend_from_slice(&pdu);
+                            let len = body.len() as u8;
+                            let fcs = body.iter().fold(0u8, |a, b| a.wrapping_add(*b));
+                            let mut f = vec![0x68, len, len, 0x68];
+                            f.extend_from_slice(&body);
+                            f.push(fcs);
+                            f.push(0x16);
+                            f
+                        }
+                    };
+                    let n = bytes.len();
+                    if adv_rng.below(2) == 0 && bytes[0] == 0xDC {
+                        // the same token a second time (a station accepts a token from an unexpected neighbour on the second offer)
+                        adv_second = Some((now + bits(11 * n as u32 + 13), bytes.clone()));
+                    }
+                    adv_phy.transmit_data(now, |buf| {
+                        buf[..n].copy_from_slice(&bytes);
+                        (n, ())
+                    });
+                } else if now >= seen + bits(12) {
+                    adv_token_seen = None;
+                }
+            }
             if let Some((idx, off, on)) = s.offline_at_bits {
                 if now >= Instant::ZERO + bits(off) && now < Instant::ZERO + bits(on) {
                     if !stations[idx].2.connectivity_state().is_offline() {
@@ -278,6 +355,7 @@ pub mod bus_sim {
             }
             monitor.receive_all_telegrams(now, |telegram, _| match telegram {
                 fdl::Telegram::Token(t) if t.da != t.sa => {
+                    adv_token_seen = Some((now, t.da));
                     if token_holder == Some(t.sa) && token_was_late {
                         out.late_visits += 1;
                         if cycles_this_visit > 1 && TRACE.load(std::sync::atomic::Ordering::Relaxed) {
@@ -331,10 +409,15 @@ pub mod bus_sim {
     }
 
     fn one(n: u64) -> String {
-        let s = scenario(n % 1_000_000);
-        let mid = n >= 1_000_000;
+        let mut s = scenario(n % 1_000_000);
+        if n >= 2_000_000 {
+            // the injection window (12..22 bit times after a token) needs a fine poll step
+            s.dt_bits = s.dt_bits.min(5);
+        }
+        let mid = n >= 1_000_000 && n < 2_000_000;
+        let adv = if n >= 2_000_000 { Some(n.wrapping_mul(0x9E37_79B9_7F4A_7C15)) } else { None };
         let desc = format!("{:?}", s).replace('"', "'");
-        let res = std::panic::catch_unwind(std::panic::AssertUnwindSafe(|| run_scenario(&s, mid)));
+        let res = std::panic::catch_unwind(std::panic::AssertUnwindSafe(|| run_scenario(&s, mid, adv)));
         match res {
             Ok(o) => {
                 if o.max_cycles_late > 1 {
